@@ -635,6 +635,8 @@ def stream_history(chk, i, rng, decorated=False):
     B = Data(rng, nB, dB)
     cfg, pl = draw_config(name, rng, d)
     cfg["verbose"] = False
+    if "batch_size" in cfg and rng.random() < 0.15:
+        cfg["batch_size"] = nA          # exactly one full batch on the final dataset
     deco = None
     if decorated:
         m = min(nA, nB)
